@@ -41,7 +41,11 @@ const BASE: [(u32, u32); 2] = [(8, 2), (4, 2)];
 const MENU: [(u32, u32); 5] = [(8, 2), (4, 2), (2, 2), (8, 2), (1, 2)];
 
 fn affordable(levels: &[Level]) -> bool {
-    levels.iter().all(|l| l.1 <= 5) && levels.iter().filter(|l| l.1 == 5).count() <= 2
+    let h5 = levels.iter().filter(|l| l.1 == 5).count();
+    let h10: Vec<&Level> = levels.iter().filter(|l| l.1 == 10).collect();
+    let taller = levels.iter().any(|l| l.1 > 10);
+    // small trees, or exactly one H10 level with a cheap Winternitz parameter
+    !taller && ((h10.is_empty() && h5 <= 2) || (h10.len() == 1 && h10[0].0 <= 4 && h5 == 0))
 }
 
 /// Signing a blob through every entry point: no panic; Err => no callback; Ok => verifies under the
@@ -293,7 +297,7 @@ pub fn check(c: &Case) -> Verdict {
 
 pub fn run(ctx: &Ctx) {
     ctx.set_rule("fault enumeration: keygen with parameter lists of length 0..10; key blobs of every length 0..64 (+ longer) through hbs_lms::sign, SigningKey::try_sign, try_sign_with_aux and get_lifetime; all 256 values of every parameter byte of a valid key (values that decode to a valid affordable list are executed and checked for correctness, H>=10 decodings are only parsed); counters at and beyond the end of life; random counter/parameter areas; aux buffers of every length 0..40 x first byte {0, 1, 0x80, 0xff}, every single-bit corruption and random values of the level word of a valid buffer, every truncation length - for keygen and sign. Oracle: no panic; Err => zero callback calls, nothing released; Ok => signature verifies under the model public key of the decoded parameters, callback got the model successor, keygen result equals the model's. Non-trivial = every case (none is a library-produced input); distinct by serialized case.");
-    ctx.assume("parameter bytes decoding to trees of height >= 10 are excluded by cost from execution (counted as excluded-by-cost), only SigningKey::from_bytes is exercised on them");
+    ctx.assume("parameter bytes decoding to trees of height >= 15 (or to more than one H10 / an H10 with W8) are excluded by cost from execution (counted as excluded-by-cost), only SigningKey::from_bytes is exercised on them");
     let hashes: Vec<HashId> = if ctx.quick() { vec![HashId::Sha256_256, HashId::Shake256_192, HashId::Sha256_128] } else { ALL_HASHES.to_vec() };
     let mut items: Vec<Case> = Vec::new();
     for h in &hashes {
